@@ -477,6 +477,9 @@ class VirtualFileSystem(FileSystem[str]):
         if folder == '.':
             # normpath() turns the root folder '' into '.', which no filename starts with.
             folder = ''
+        elif not folder.endswith('/'):
+            # Match whole folder names only, "mat" is not a prefix of "materials/".
+            folder += '/'
 
         for filename, data in self._mapping.values():
             if filename.startswith(folder):
@@ -590,6 +593,9 @@ class ZipFileSystem(FileSystem[ZipInfo]):
         """Yield files in a folder."""
         # \\ is not allowed in zips.
         folder = folder.replace('\\', '/').casefold()
+        if folder and not folder.endswith('/'):
+            # Match whole folder names only, "mat" is not a prefix of "materials/".
+            folder += '/'
         for filename, fileinfo in self._name_to_info.items():
             if filename.startswith(folder):
                 yield File(self, fileinfo.filename, fileinfo)
@@ -670,8 +676,11 @@ class VPKFileSystem(FileSystem[VPKFile]):
         """Yield files in a folder."""
         # All VPK files use forward slashes.
         folder = folder.replace('\\', '/')
+        if folder and not folder.endswith('/'):
+            # Match whole folder names only, "mat" is not a prefix of "materials/".
+            folder += '/'
         for file in self._name_to_file.values():
-            if file.dir.startswith(folder):
+            if (file.dir + '/').startswith(folder):
                 yield File(self, file.filename, file)
 
     def open_bin(self, name: Union[str, File[Self]]) -> BinaryIO:
